@@ -1,13 +1,13 @@
 #!/bin/bash
-# usage: benign.sh <agent-worktree> <property-id>
+# usage: benign.sh <agent-worktree> <property-id> [name-prefix]
 # Behaviour-preserving changes: for each <worktree>/_out/bK confirm that it applies, builds and that the
 # existing suite passes, keep it as benign/<id>-bK/, then evaluate EVERY property's rules on the variant
 # source: any failure there is a false alarm of the checker (recorded in meta.json["alarms"]).
 cd /verif; . ./env.sh
-wt=$1; id=$2
+wt=$1; id=$2; pre=${3:-}
 for d in "$wt"/_out/b*/; do
   [ -f "$d/patch.diff" ] || continue
-  k=$(basename "$d"); dst=benign/$id-$k
+  k=$(basename "$d"); dst=benign/$id-$pre$k
   tmp=$(mktemp -d /tmp/mgbn.XXXXXX)
   rsync -a --exclude .git --exclude _out /repo/ "$tmp/"
   if ! (cd "$tmp" && patch -s -p1 --no-backup-if-mismatch < "$d/patch.diff" >/dev/null 2>&1); then echo "REJECTED $id $k: patch does not apply"; rm -rf "$tmp"; continue; fi
